@@ -19,12 +19,17 @@ import numba as nb
 
 @nb.njit(cache=True)
 def arr_comb(n, k):
-    n = np.where((n < 0) | (n < k), 0, n)
+    invalid = (n < 0) | (n < k)
+    n = np.where(invalid, 0, n)
+
+    # NOTE: C(n, k) == C(n, n - k). Only the smaller number of factors is multiplied
+    # up, otherwise the intermediate products overflow 64 bits for e.g. C(67, 66).
+    k_eff = np.where(invalid, k, np.minimum(k, n - k))
+
     prod = np.ones(n.shape, dtype=np.int64)
 
     for i in range(k):
-        prod *= n - i
-        prod = prod // (i + 1)
+        prod = np.where(i < k_eff, prod * (n - i) // (i + 1), prod)
 
     return prod
 
